@@ -622,6 +622,9 @@ class Engine:
             return [(st, SUnionType(_ualts(a) + _ualts(b)))]
         if isinstance(a, SRef) and isinstance(b, SRef) and a.ty.kind == "list" and isinstance(op, ast.Add):
             return [(st, self.models.list_concat(self, st, a, b))]
+        if isinstance(op, ast.Mult) and ((isinstance(a, SRef) and a.ty.kind == "list" and isinstance(b, SInt)) or (isinstance(b, SRef) and b.ty.kind == "list" and isinstance(a, SInt))):
+            lst, k = (a, b) if isinstance(a, SRef) else (b, a)
+            return [(st, self.models.list_repeat(self, st, lst, k))]
         if isinstance(a, SRef) and isinstance(b, SRef) and a.ty.kind == "set" and isinstance(op, (ast.Sub, ast.BitOr, ast.BitAnd)):
             return [(st, self.models.set_binop(self, st, op, a, b))]
         if isinstance(a, STuple) and isinstance(b, STuple) and isinstance(op, ast.Add):
@@ -915,6 +918,49 @@ class Engine:
             sq = st.cseq(w.t)
             if ty.v.kind in simple:
                 st.assume(sym.forall_pat([i], z3.Implies(z3.And(i >= 0, i < st.clen(w.t)), sym.type_constraint(z3.Select(sq, i), ty.v, self.reg, shallow=sh)), z3.Select(sq, i)))
+        if deep:
+            # references nested inside stored records / tuples denote objects allocated before the call (closure, as for direct values)
+            lim = st.heap.next_ref
+            if ty.kind in ("dict", "set"):
+                k = sym.fresh_val("tk")
+                dom = st.dom(w.t)
+                terms = self._nested_refs(k, ty.k if ty.kind == "dict" else ty.v, 0)
+                if ty.kind == "dict":
+                    terms += self._nested_refs(z3.Select(st.cmap(w.t), k), ty.v, 0)
+                if terms:
+                    st.assume(z3.ForAll([k], z3.Implies(z3.Select(dom, k), z3.And(*[z3.And(Val.rid(t) >= 0, Val.rid(t) < lim) for t in terms]))))
+            else:
+                i = sym.fresh_int("ti")
+                terms = self._nested_refs(z3.Select(st.cseq(w.t), i), ty.v, 0)
+                if terms:
+                    st.assume(z3.ForAll([i], z3.Implies(z3.And(i >= 0, i < st.clen(w.t)), z3.And(*[z3.And(Val.rid(t) >= 0, Val.rid(t) < lim) for t in terms]))))
+
+    def _nested_refs(self, t, ty, depth):
+        """terms of the reference-valued components found inside a record / tuple value t of static type ty (not t itself)"""
+        out = []
+        if depth > 3:
+            return out
+        if ty.kind == "tuple":
+            cur = Val.targs(t)
+            for it in ty.items:
+                x = sym.VL.hd(cur)
+                if it.kind in ("dict", "list", "set") or (it.kind == "class" and getattr(self.reg.get(it.name), "kind", "") in ("object", "external")):
+                    out.append(x)
+                else:
+                    out += self._nested_refs(x, it, depth + 1)
+                cur = sym.VL.tl(cur)
+        elif ty.kind == "class":
+            ci = self.reg.get(ty.name)
+            if ci is not None and ci.kind == "record":
+                cur = Val.rargs(t)
+                for f, fty in ci.fields.items():
+                    x = sym.VL.hd(cur)
+                    if fty.kind in ("dict", "list", "set") or (fty.kind == "class" and getattr(self.reg.get(fty.name), "kind", "") in ("object", "external")):
+                        out.append(x)
+                    else:
+                        out += self._nested_refs(x, fty, depth + 1)
+                    cur = sym.VL.tl(cur)
+        return out
 
     def _owner_of(self, ci, attr):
         """name of the class that actually defines method attr (for contract keys)"""
@@ -1048,6 +1094,20 @@ class Engine:
             return self.models.external_call(self, st, fv, args, kwargs)
         if isinstance(fv, SUnionType):
             raise Unsupported("calling a union type")
+        if isinstance(args, self.models._StarList) or isinstance(kwargs, self.models._StarDict):
+            if not isinstance(fv, (SOpaque, SAny)):
+                raise Unsupported("*args / **kwargs of symbolic size into a repository function")
+            # f(*args, **kwargs) on an unknown callable: ONE event "call"(callee, positional snapshot, keyword snapshot); result unconstrained
+            self.externals_used.add("call:*args/**kwargs of an unknown callable")
+            pos = args.ref if isinstance(args, self.models._StarList) else self.models.new_list(self, st, list(args), sym.TList(ANY))
+            if isinstance(kwargs, self.models._StarDict):
+                kwr = kwargs.ref
+            else:
+                kwr = st.new_container(sym.TDict(sym.STR, ANY))
+                for k_, v_ in kwargs.items():
+                    self.models.dict_set(self, st, kwr, SStr(k_), v_)
+            st.log_event("call", [fv, pos, kwr])
+            return self.external_outcomes(st, "call", "call")
         if isinstance(fv, SOpaque):
             # calling an unknown callable: recorded as an event, result unconstrained
             self.externals_used.add(f"call:{fv.label or 'opaque'}")
